@@ -229,9 +229,7 @@ func TestVerifC14Conc(t *testing.T) {
 		if err := json.Unmarshal(esc.Bytes(), e); err != nil {
 			t.Fatalf("bad extract line: %v", err)
 		}
-		if e.Kind == "mf" {
-			ext[e.ID] = e
-		}
+		ext[e.ID] = e
 	}
 	ef.Close()
 
